@@ -363,9 +363,15 @@ def check_case(case):
                         int(np.prod(case["sizes"])) >= 2,
                         "outcome": "%s:%s" % (case["op"], "ok" if not vio
                                               else "bad"), "violations": vio}
-            h = xyz.Harvester(xyz.Runner(f, var_names="out"), data_name=name,
-                              engine=eng, full_ds=ds)
-            h.save_full_ds()
+            if core.pick([case["name"], case["sizes"], case["vdt"], "path"], 2):
+                # (saved by merging a dataset in, as every harvest does)
+                h = xyz.Harvester(xyz.Runner(f, var_names="out"),
+                                  data_name=name, engine=eng)
+                h.add_ds(ds)
+            else:
+                h = xyz.Harvester(xyz.Runner(f, var_names="out"),
+                                  data_name=name, engine=eng, full_ds=ds)
+                h.save_full_ds()
             if listing() != [want_file]:
                 vio.append((key("file-name"), "Harvester saved %r as %r, "
                             "expected %r" % (case["name"], listing(), want_file)))
